@@ -365,6 +365,8 @@ class Accessor(object):
         if t == "EnumField":
             ms = list(spec.enum().__members__.values()) + [None]
             return ms[o.choose(len(ms))]
+        if "ssn" in base:
+            return ("123456789", "")[o.choose(2)]       # a text line that carries a social security number (as SSNInput answers)
         return ("abc", "")[o.choose(2)]
 
 
@@ -379,6 +381,7 @@ def explore_line(cat, form, field, max_paths=3000, rng=None, pin=None, extra_ran
     refs, errors, outcomes = set(), [], {}
     consts = {}       # filing status decision (or "-") -> set of plain numbers met by unknown amounts / returned / looked up
     gate_obs = []     # (decisions dict, outcome)
+    texts = set()     # text values returned on some path (at most 40)
     n = 0
     truncated = False
     fn = getattr(field, "_value", None)
@@ -395,6 +398,8 @@ def explore_line(cat, form, field, max_paths=3000, rng=None, pin=None, extra_ran
         try:
             r = fn(mi, mv)
             out = "value"
+            if isinstance(r, str) and len(texts) < 40:
+                texts.add(r)
             if isinstance(r, (int, float)) and not isinstance(r, (bool, TF, TI)):
                 CONSTS.add(float(r))
         except FieldNotImplemented as e:
@@ -429,7 +434,7 @@ def explore_line(cat, form, field, max_paths=3000, rng=None, pin=None, extra_ran
                 oracle = Oracle(rng or random.Random(n))
                 continue
             break
-    return {"refs": refs, "outcomes": outcomes, "errors": errors, "paths": n, "truncated": truncated, "gate_obs": gate_obs, "consts": consts}
+    return {"refs": refs, "outcomes": outcomes, "errors": errors, "paths": n, "truncated": truncated, "gate_obs": gate_obs, "consts": consts, "texts": sorted(texts)}
 
 
 def explore_year(year, max_paths=3000):
